@@ -174,23 +174,70 @@ def gen_case(rng):
         stds["std_" + shocks[0]] = 1.0
     nvar = 2 if rng.chance(0.2) else 1
     stds2 = {k: rng.choice([0.5, 1.0, 2.0]) for k in stds} if nvar == 2 else None
+    # a sequence of rescale_stds calls with the `kind` option (kinds that select nothing included: many models have no
+    # measurement shocks); mostly "kind by kind with one factor", which scales ALL stds by that factor
+    f = rng.choice([0.5, 2.0, 3.0, 1.5])
+    pat = rng.weighted([("tm", 3), ("mt", 3), ("random", 3), ("any", 1)])
+    if pat == "tm":
+        seq = [["transition", f], ["measurement", f]]
+    elif pat == "mt":
+        seq = [["measurement", f], ["transition", f]]
+    elif pat == "any":
+        seq = [["any", f]]
+    else:
+        seq = [[rng.choice(["all", "transition", "measurement", "any"]), rng.choice([0.5, 2.0, 3.0, 1.5])] for _ in range(rng.randint(1, 3))]
     return {"op": "acov", "source": src, "stds": stds, "stds2": stds2, "order": rng.randint(0, 3), "factor": rng.choice([0.5, 2.0, 3.0, 1.5]),
-            "nonstationary": sorted(nonstat), "names": all_names + mnames}
+            "nonstationary": sorted(nonstat), "names": all_names + mnames, "rescale_seq": seq,
+            "transition_shocks": list(shocks), "measurement_shocks": list(mshocks)}
 
 
 # ---------------------------------------------------------------------------------------
 # implementation side
 # ---------------------------------------------------------------------------------------
 
-def build_model(case):
+def build_model(case, std_factors=None):
+    """std_factors: {std name: factor} applied to the assigned values (the independent route to a rescaled model)"""
     m = ir.Simultaneous.from_string(case["source"], linear=True)
+    fac = (lambda k: std_factors.get(k, 1.0)) if std_factors else (lambda k: 1.0)
     if case.get("stds2"):
         m.alter_num_variants(2)
-        m.assign(**{k: [case["stds"][k], case["stds2"][k]] for k in case["stds"]})
+        m.assign(**{k: [case["stds"][k] * fac(k), case["stds2"][k] * fac(k)] for k in case["stds"]})
     else:
-        m.assign(**case["stds"])
+        m.assign(**{k: v * fac(k) for k, v in case["stds"].items()})
     m.solve()
     return m
+
+
+def kind_of(name):
+    return {"all": None, "transition": ir.TRANSITION_STD, "measurement": ir.MEASUREMENT_STD,
+            "any": ir.TRANSITION_STD | ir.MEASUREMENT_STD}[name]
+
+
+def selected_stds(case, kind):
+    t = ["std_" + x for x in case["transition_shocks"]]; w = ["std_" + x for x in case["measurement_shocks"]]
+    return set(t if kind == "transition" else w if kind == "measurement" else t + w)
+
+
+def run_rescale_sequence(case, m):
+    """apply case['rescale_seq'] to a copy of the solved model; after every call record every stored level of every variant by name"""
+    m3 = m.copy()
+    q2n = m3.create_qid_to_name()
+    snap = lambda: [{q2n.get(q, str(q)): v for q, v in var.levels.items()} for var in m3._variants]
+    snaps = [snap()]
+    for kind, f in case["rescale_seq"]:
+        if kind == "all":
+            m3.rescale_stds(f)
+        else:
+            m3.rescale_stds(f, kind=kind_of(kind))
+        snaps.append(snap())
+    acov = m3.get_acov(up_to_order=case["order"], unpack_singleton=False)
+    # the same stds reached by plain assignment on a freshly built model
+    fac = {}
+    for kind, f in case["rescale_seq"]:
+        for nm in selected_stds(case, kind):
+            fac[nm] = fac.get(nm, 1.0) * f
+    fresh = build_model(case, fac).get_acov(up_to_order=case["order"], unpack_singleton=False)
+    return snaps, acov, fresh
 
 
 def run_impl(case):
@@ -204,6 +251,7 @@ def run_impl(case):
     m2 = m.copy()
     m2.rescale_stds(case["factor"])
     acov_scaled = m2.get_acov(up_to_order=k, unpack_singleton=False)
+    seq = run_rescale_sequence(case, m) if case.get("rescale_seq") else None
     out = []
     for vid in range(nvar):
         variant = m._variants[vid]
@@ -217,7 +265,21 @@ def run_impl(case):
                     "acov_scaled": [np.array(a) for a in acov_scaled[vid]],
                     "full": [np.array(a) for a in COV.get_autocov_square(sol, cov_u, cov_w, k)],
                     "tri00": np.array(COV.get_cov_triangular_00(sol, cov_u, cov_w))})
+        if seq is not None:
+            out[-1]["seq_snaps"] = [sn[vid] for sn in seq[0]]
+            out[-1]["seq_acov"] = [np.array(a) for a in seq[1][vid]]
+            out[-1]["seq_fresh"] = [np.array(a) for a in seq[2][vid]]
     return names, out
+
+
+def cumulative_factors(case):
+    fu = fw = 1.0
+    for kind, f in case["rescale_seq"]:
+        if kind in ("all", "any", "transition"):
+            fu *= f
+        if kind in ("all", "any", "measurement"):
+            fw *= f
+    return fu, fw
 
 
 # ---------------------------------------------------------------------------------------
@@ -228,12 +290,13 @@ def rats(a):
     return [rat_of_float(x) for x in np.asarray(a, dtype=float).flatten()]
 
 
-def acov_line(case, r, factor=1.0):
+def acov_line(case, r, factor=1.0, factors=None):
     sol = r["sol"]
     na, ny, nu = sol.num_alpha, sol.num_y, sol.num_unit_roots
     ne, nw = r["cov_u"].shape[0], r["cov_w"].shape[0]
     sel = [i for i, z in enumerate(r["zero_shift"]) if z]
-    ws = ["acov", na, ny, nu, ne, nw, case["order"], "1/1000000000000", rat_of_float(factor)]
+    ftext = rat_of_float(factor) if factors is None else rat_of_float(factors[0]) + "," + rat_of_float(factors[1])
+    ws = ["acov", na, ny, nu, ne, nw, case["order"], "1/1000000000000", ftext]
     ws += rats(sol.Ta) + rats(sol.Pa) + rats(np.asarray(sol.Za).reshape(ny, na)) + rats(sol.Ua) + rats(np.asarray(sol.H).reshape(ny, nw))
     ws += rats(np.diag(r["cov_u"])) + rats(np.diag(r["cov_w"]))
     ws += [len(sel)] + sel
@@ -363,6 +426,41 @@ def oracle(ctx: Ctx, case, names, r, vid):
         if not close(r["acov_scaled"][j], s * s * acov[j], sc, 1e-9 / max(1e-3, (1 - min(rho, 0.999)) ** 2)):
             ctx.fail("rescale-stds-variants" if vid > 0 else "rescale-stds", case, tag + f"order {j}: after rescale_stds({s}) the autocovariance is not {s * s} times the original")
             break
+    # (6) rescale_stds with the `kind` option, in sequences: after every call the stored stds of the selected kind are
+    #     multiplied by the factor and every other stored value is untouched; the autocovariances are those of a model
+    #     whose stds were assigned the same values directly; when all stds end up scaled by one s they are s^2 times the original
+    if "seq_snaps" in r:
+        snaps = r["seq_snaps"]
+        stored_ok = True
+        for step, (kind, f) in enumerate(case["rescale_seq"]):
+            sel = selected_stds(case, kind)
+            before, after = snaps[step], snaps[step + 1]
+            for nm, v0 in before.items():
+                want = v0 * f if (nm in sel and v0 is not None) else v0
+                got = after.get(nm)
+                same = (got is None and want is None) or (got is not None and want is not None and (got == want or (got != got and want != want)))
+                if not same:
+                    ctx.fail("rescale-stds-kind-stored-values", case, tag + f"call {step + 1} rescale_stds({f}, kind={kind}): stored value of "
+                             f"{nm} went from {v0} to {got}, expected {want} (selected stds: {sorted(sel)})")
+                    stored_ok = False
+                    break
+            if not stored_ok:
+                break
+        sc = max(1.0, float(np.nanmax(np.abs(r["seq_fresh"][0]))) if np.any(~np.isnan(r["seq_fresh"][0])) else 1.0)
+        tol6 = 1e-9 / max(1e-3, (1 - min(rho, 0.999)) ** 2)
+        for j in range(k + 1):
+            if not close(r["seq_acov"][j], r["seq_fresh"][j], sc, tol6):
+                ctx.fail("rescale-stds-kind-acov", case, tag + f"order {j}: after {case['rescale_seq']} get_acov differs from a model whose stds "
+                         "were assigned the rescaled values directly")
+                break
+        fu, fw = cumulative_factors(case)
+        if fu == fw:
+            for j in range(k + 1):
+                sc2 = max(1.0, float(np.nanmax(np.abs(acov[j]))) if np.any(~np.isnan(acov[j])) else 1.0) * fu * fu
+                if not close(r["seq_acov"][j], fu * fu * acov[j], sc2, tol6):
+                    ctx.fail("rescale-stds-kind-s2", case, tag + f"order {j}: all stds were scaled by {fu} through {case['rescale_seq']} "
+                             f"but the autocovariance is not {fu * fu} times the original")
+                    break
     ctx.nontriv(("acov", nsel, int(want_nan.sum()), k, int(sol.num_unit_roots), ny, key_lyap, key_zero))
 
 
@@ -370,7 +468,7 @@ def oracle(ctx: Ctx, case, names, r, vid):
 # correspondence
 # ---------------------------------------------------------------------------------------
 
-def compare(ctx: Ctx, case, names, r, vid, reply, reply_scaled, cert):
+def compare(ctx: Ctx, case, names, r, vid, reply, reply_scaled, cert, reply_seq=None):
     ctx.streams_compared["acov"] = ctx.streams_compared.get("acov", 0) + 1
     k = case["order"]
     nsel = len(names)
@@ -421,6 +519,13 @@ def compare(ctx: Ctx, case, names, r, vid, reply, reply_scaled, cert):
         G2 = np.array(parse_cells(q2["G"])).reshape(k + 1, nsel, nsel)
         if not close(np.array(r["acov_scaled"]), G2, scale * case["factor"] ** 2, tol):
             ctx.disagree("acov-rescaled", case, np.array(r["acov_scaled"]).tolist(), G2.tolist())
+    if reply_seq is not None and not reply_seq.startswith("err") and "seq_acov" in r:
+        ctx.streams_compared["acov-rescaled-by-kind"] = ctx.streams_compared.get("acov-rescaled-by-kind", 0) + 1
+        q3 = dict(part.partition("=")[::2] for part in reply_seq.split(";")[1:])
+        G3 = np.array(parse_cells(q3["G"])).reshape(k + 1, nsel, nsel)
+        fu, fw = cumulative_factors(case)
+        if not close(np.array(r["seq_acov"]), G3, scale * max(fu, fw, 1.0) ** 2, tol):
+            ctx.disagree("acov-rescaled-by-kind", case, np.array(r["seq_acov"]).tolist(), G3.tolist())
     # V: exact fixed-point residual of the implementation's own cov_triangular_00
     if cert is not None:
         ctx.streams_compared["cert"] = ctx.streams_compared.get("cert", 0) + 1
@@ -457,12 +562,15 @@ def do_cases(ctx: Ctx, cases, with_model=True):
         ctx.count(f"order={case['order']}"); ctx.count(f"variants={len(out)}")
         ctx.count("combination-of-unit-root-variables=" + str(any(l.count("*z") >= 2 for l in case["source"].split("\n") if l.strip().startswith(("obs", "s0")))))
         ctx.count("forward-looking=" + str("{+1}" in case["source"]))
+        for kind, _ in case.get("rescale_seq") or []:
+            ctx.count(f"rescale-kind={kind}" + (",empty-selection" if not selected_stds(case, kind) else ""))
         for vid, r in enumerate(out):
             oracle(ctx, case, names, r, vid)
             sol = r["sol"]
             if with_model and sol.num_alpha - sol.num_unit_roots <= MAX_STABLE:
                 slots.append((ci, vid, len(lines)))
-                lines += [acov_line(case, r), acov_line(case, r, case["factor"]), cert_line(r)]
+                lines += [acov_line(case, r), acov_line(case, r, case["factor"]), cert_line(r),
+                          acov_line(case, r, factors=cumulative_factors(case)) if case.get("rescale_seq") else "noop"]
             elif with_model:
                 ctx.count("model:too-large-not-compared")
         if ci < 2:
@@ -472,7 +580,8 @@ def do_cases(ctx: Ctx, cases, with_model=True):
         if replies is not None:
             for ci, vid, k in slots:
                 names, out = impl[ci]
-                compare(ctx, cases[ci], names, out[vid], vid, replies[k], replies[k + 1], replies[k + 2])
+                compare(ctx, cases[ci], names, out[vid], vid, replies[k], replies[k + 1], replies[k + 2],
+                        replies[k + 3] if cases[ci].get("rescale_seq") else None)
 
 
 def all_cases(ctx: Ctx, scale=1):
@@ -490,7 +599,8 @@ def corpus_cases():
 def run(ctx: Ctx):
     ctx.rule = ("random small linear models built with Simultaneous.from_string: 1-3 stationary AR variables with lags 1-2 (optionally one lead), "
                 "0-2 random-walk / cumulated variables, optional variables depending on them, 0-2 measurement variables with or without measurement "
-                "shocks, std in {0, .5, 1, 2, 3}, order 0-3, 1-2 variants, rescale factor in {.5, 1.5, 2, 3}. evaluations counts (model, variant) pairs; "
+                "shocks, std in {0, .5, 1, 2, 3}, order 0-3, 1-2 variants, rescale factor in {.5, 1.5, 2, 3}, a sequence of 1-3 rescale_stds(kind=...) calls "
+                "(all / transition / measurement / both kinds, empty selections included). evaluations counts (model, variant) pairs; "
                 "distinct_nontrivial counts distinct classes (number of variables, number of NaN variables, order, unit roots, measurement variables, "
                 "(stable states, stable observables, unit-root states, rho > 0.5) when the square-form equations applied, has-a-zero-variance) among "
                 "the pairs whose autocovariances were produced and passed the shape checks")
